@@ -13,7 +13,7 @@ import os
 import re
 import typing as T
 
-from . import common, c17_gen as G, c17_real as R, c17_tables, c17_flow as F
+from . import common, c17_gen as G, c17_real as R, c17_tables, c17_flow as F, c17_ops as O
 from .common import Ctx, enc, dec, enc_list
 
 ID = 'C17'
@@ -551,6 +551,19 @@ def run_case(case: T.Dict[str, T.Any]) -> T.Dict[str, T.Any]:
                 step = oracle_step(bf, af, group[0], status, meta, cap_applied=bool(recs),
                                    nested=any(R.nested_works(r['works']) for r in recs),
                                    cwd_root=case.get('cwd', 'root') != 'outside')
+                if case.get('optable') and status == 'ok':
+                    # the untouched keyword value must still EVALUATE to what it did (concrete evaluator on real trees)
+                    try:
+                        vb = O.ev(R.kwarg(R.find_target(R.View(bf).stmts, 't0')[1], 'objects').args.arguments[0], OPS_ENV)
+                        try:
+                            va = O.ev(R.kwarg(R.find_target(R.View(af).stmts, 't0')[1], 'objects').args.arguments[0], OPS_ENV)
+                        except Exception as e_:
+                            va = 'ERR:' + type(e_).__name__
+                        out['tags'].append('optable:rewrite-evaluated')
+                        if va != vb:
+                            step['viol'].append((case['optable'], f'untouched keyword value evaluates to {va!r} after the command, {vb!r} before'))
+                    except Exception as e_:
+                        out['tags'].append('optable:not-evaluated:' + type(e_).__name__)
                 if case.get('flow') and not step['viol']:
                     # ground truth: the build files executed for every configuration of the branch conditions
                     fv, ft = F.flow_oracle(bf, af, group[0], status)
@@ -682,6 +695,7 @@ def _script_mode(case: T.Dict[str, T.Any], cmds: T.List[T.Dict[str, T.Any]], sta
 def _case_of(case: T.Dict[str, T.Any], upto: int) -> T.Dict[str, T.Any]:
     return {'files': {f: t for f, t in case['files'].items() if os.path.basename(f) == 'meson.build'},
             'cmds': case['cmds'][:upto + 1], 'cwd': case.get('cwd', 'root'), 'flow': bool(case.get('flow')),
+            'optable': case.get('optable'),
             'meta': {k: case['meta'][k] for k in ('pool', 'extra_pool', 'shared', 'allfiles') if k in case['meta']}, 'mode': 'single'}
 
 
@@ -863,6 +877,53 @@ CORPUS_FLOW = [
 ]
 
 
+OPS_ENV = {'a': 7, 'b': 5, 'c': 3, 'p': True, 'q': False, 'r': True, 'lst': list(range(1, 41))}
+_OPS_HEAD = ("project('demo')\na = 7\nb = 5\nc = 3\np = true\nq = false\nr = true\nlst = [" + ', '.join(str(i) for i in range(1, 41)) + "]\n")
+
+
+def printer_table(ctx: Ctx) -> T.List[T.Tuple[str, str, str]]:
+    """the operator table through the real AstPrinter, judged by value (implementation only); returns the trees for the
+    model's print correspondence"""
+    prints: T.List[T.Tuple[str, str, str]] = []
+    for e in O.entries():
+        for r in O.check_entry(e):
+            ctx.count()
+            ctx.tag('optable:' + r['variant'])
+            if r['tree'] is not None:
+                prints.append((r['tree'], r['printed'], re.sub(r'\s+\n', '\n', r['printed']).strip()))
+            if not r['ok']:
+                ctx.violation(O.key_of(e), f"{e['text']} ({r['variant']} operand) is printed as {r['printed']!r}: {r['why']}",
+                              {'printer_entry': e, 'variant': r['variant']})
+    return prints
+
+
+def optable_cases() -> T.List[T.Dict[str, T.Any]]:
+    """integration leg: every table entry as an UNTOUCHED keyword value of a statement that a real rewriter command re-prints"""
+    M = R.mp()
+    out = []
+    pool = ['s%d.c' % i for i in range(8)]
+    cmdsets = [
+        [{'type': 'target', 'target': 't0', 'operation': 'src_add', 'sources': ['new0.c']}],
+        [{'type': 'kwargs', 'function': 'target', 'id': 't0', 'operation': 'set', 'kwargs': {'install': True}}],
+        [{'type': 'target', 'target': 't0', 'operation': 'src_rm', 'sources': ['s1.c']}],
+        [{'type': 'target', 'target': 't0', 'operation': 'extra_files_add', 'sources': ['newe0.txt']}],
+    ]
+    for i, e in enumerate(O.entries()):
+        if any(o in (e['outer'], e['inner'].split('[')[0]) for o in O.CMP_ORD):
+            continue      # ordering comparisons abort the analysis (recorded finding); covered by the table leg
+        try:
+            O.ev(M.Parser('v = ' + e['text'] + '\n', 'ops').parse().lines[0].value, OPS_ENV)
+        except Exception:
+            continue
+        files = {f: '' for f in pool + ['new0.c', 'newe0.txt']}
+        files['meson.build'] = _OPS_HEAD + "t0 = executable('t0', 's0.c', 's1.c', objects: [%s], install: false)\nz = 1\n" % e['text']
+        out.append({'files': files, 'cmds': cmdsets[i % len(cmdsets)], 'mode': 'single', 'prints': False, 'script': False,
+                    'optable': O.key_of(e),
+                    'meta': {'pool': pool, 'extra_pool': [], 'shared': [], 'targets': {}, 'deps': {}, 'project': {},
+                             'hazard': 'optable'}})
+    return out
+
+
 def hostile_family() -> T.List[T.Dict[str, T.Any]]:
     """the layout-hostile family: every token kind of the live lexer whose text can span lines (plus escapes, non-ASCII,
     tabs, continuations, trailing comments, no newline at EOF) next to the start / end of the edited node, for each edit kind"""
@@ -915,7 +976,7 @@ def _inflate(c: T.Dict[str, T.Any]) -> T.Dict[str, T.Any]:
     files = {f: '' for f in pool + epool + ['new0.c', 'new1.c', 'new2.c', 'newe0.txt', 'newe1.txt'] + list(allfiles)}
     files.update(c['files'])
     return {'files': files, 'cmds': c['cmds'], 'mode': c.get('mode', 'single'), 'prints': False, 'cwd': c.get('cwd', 'root'),
-            'flow': bool(c.get('flow')),
+            'flow': bool(c.get('flow')), 'optable': c.get('optable'),
             'meta': {'pool': pool, 'extra_pool': epool, 'shared': c.get('meta', {}).get('shared', []), 'targets': {}, 'deps': {},
                      'project': {}, 'hazard': 'flow' if c.get('flow') else 'replay', 'allfiles': list(allfiles)}}
 
@@ -1156,7 +1217,7 @@ def run(ctx: Ctx) -> None:
     ]
     R.quiet()
     rng = ctx.rng
-    cases = corpus_cases() + hostile_family()
+    cases = corpus_cases() + hostile_family() + optable_cases()
     nproj = ctx.scale(420, 4000)
     hz_cycle = [None] * 7 + G.HAZARDS
     for i in range(nproj):
@@ -1189,9 +1250,10 @@ def run(ctx: Ctx) -> None:
         for pos in ('before-start', 'before-end'):
             if not ctx.dist.get(f'adjacent:{tid}:{pos}'):
                 ctx.obligation_failed('layout-hostile family', f'no edited node had a {tid} token on its line ({pos})')
+    table_prints = printer_table(ctx)
     if ctx.model_available:
         stream_small(ctx)
-        stream_print(ctx, prints[:ctx.scale(1500, 8000)])
+        stream_print(ctx, table_prints + prints[:ctx.scale(1500, 8000)])
 
 
 def search(ctx: Ctx, disagreements: T.List[dict]) -> None:
@@ -1226,6 +1288,12 @@ def search(ctx: Ctx, disagreements: T.List[dict]) -> None:
 
 def replay(ctx: Ctx, rep: dict) -> None:
     case = rep.get('case') or rep
+    if 'printer_entry' in case:
+        e = case['printer_entry']
+        for r in O.check_entry(e):
+            if not r['ok']:
+                ctx.violation(O.key_of(e), f"{e['text']} ({r['variant']}) is printed as {r['printed']!r}: {r['why']}", case)
+        return
     if 'files' not in case:
         for d in rep.get('correspondence_disagreements', []):
             if 'case' in d:
